@@ -43,6 +43,16 @@ CALLS = {
     "send_close_bad": dict(api="send_close", status=65536, reason=b""),
     "shutdown": dict(api="shutdown"),
 }
+# beyond the listed properties (clauses X08.*): timeouts, abort, iteration
+XCALLS = {
+    "settimeout5": dict(api="settimeout", value=5000),
+    "settimeoutNone": dict(api="settimeout", value=-1),
+    "gettimeout": dict(api="gettimeout"),
+    "abort": dict(api="abort"),
+    "next": dict(api="recv", control=False, via="next"),
+    "iter": dict(api="recv", control=False, via="iter"),
+}
+CALLS_ALL = dict(CALLS, **XCALLS)
 
 
 def run_seq(sc):
@@ -65,6 +75,7 @@ def run_seq(sc):
         ws = websocket.WebSocket()
         sock = FakeSocket(w)
         sock.timeout = 2
+        ws.sock_opt.timeout = 2
         t = w.clock.now
         for gap, item in script:
             t += gap / 1000.0
@@ -91,8 +102,8 @@ def run_seq(sc):
             return int(round((w.clock.now - 1000.0) * 1000))
 
         for name in sc["calls"]:
-            c = CALLS[name]
-            ce = {"ev": "call", "api": c["api"], "t": now(), "control": bool(c.get("control", False)),
+            c = CALLS_ALL[name]
+            ce = {"ev": "call", "api": c["api"], "t": now(), "control": bool(c.get("control", False)), "value": c.get("value", 0),
                   "op": c.get("op", 0), "payload": list(c.get("payload", b"")), "status": c.get("status", 0),
                   "reason": list(c.get("reason", b"")), "timeout": c.get("timeout", 0), "name": name}
             log(ce)
@@ -112,12 +123,23 @@ def run_seq(sc):
                     ws.send_close(c["status"], c["reason"])
                 elif c["api"] == "shutdown":
                     ws.shutdown()
+                elif c["api"] == "settimeout":
+                    ws.settimeout(None if c["value"] < 0 else c["value"] / 1000.0)
+                elif c["api"] == "gettimeout":
+                    v = ws.gettimeout()
+                    r["value"] = -1 if v is None else int(round(v * 1000))
+                elif c["api"] == "abort":
+                    ws.abort()
+                elif c["api"] == "recv":
+                    v = ws.next() if c["via"] == "next" else next(iter(ws))
+                    r = {"kind": "text" if isinstance(v, str) else "bytes", "op": 99, "fin": 99,
+                         "data": list(v.encode("utf-8") if isinstance(v, str) else v)}
                 flush()
                 r.update({"ev": "ret", "t": now(), "connected": bool(ws.connected), "sock_none": ws.sock is None})
                 log(r)
             except HangForever:
                 flush()
-                log({"ev": "hang"})
+                log({"ev": "blocked"})
                 break
             except Exception as e:
                 flush()
@@ -148,6 +170,15 @@ def scenarios(rng, tier):
     for _ in range(300 if tier == "quick" else 5000):
         n += 1
         out.append({"tid": "q%d" % n, "server": rng.choice(servers), "calls": [rng.choice(names) for _ in range(rng.randrange(4, 7))]})
+    # extended API mixed into call sequences
+    allnames = names + list(XCALLS)
+    for _ in range(400 if tier == "quick" else 6000):
+        n += 1
+        k = rng.randrange(2, 6)
+        calls = [rng.choice(allnames) for _ in range(k)]
+        if not any(c in XCALLS for c in calls):
+            calls[rng.randrange(k)] = rng.choice(list(XCALLS))
+        out.append({"tid": "x%d" % n, "server": rng.choice(servers), "calls": calls})
     return out
 
 
@@ -217,6 +248,8 @@ def main(ctx):
         owner = why.split(".")[0]
         if owner == "harness":
             ctx.machinery_error = "harness inconsistency %s in %s: %s" % (why, sc, trace[max(0, b["at"] - 3):b["at"] + 1])
+        elif owner == "X08":
+            ctx.remark("DRIFT (extended coverage, not a listed property): %s in calls %s against '%s'" % (why, sc["calls"], sc["server"]))
         elif owner == "C08":
             ctx.deviation(finding_for(ctx, why, sc, trace, b["at"]),
                           "calls %s against server '%s': event %d breaks %s; %s" % (
